@@ -139,6 +139,7 @@ type Alloc struct {
 	freedList          []*block
 	fmu                sync.Mutex
 	yield              func() // optional scheduling perturbation called inside Malloc/Free
+	cbmu               sync.RWMutex
 	onFree             atomic.Value // func(unsafe.Pointer, int): called before a valid free takes effect
 	guardedFreesAtExit int64
 }
@@ -167,7 +168,13 @@ func (a *Alloc) Mode() Mode { return a.mode }
 
 // SetOnFree installs a callback invoked for every valid free before the block
 // is poisoned / unmapped (used to monitor "not released while still linked").
-func (a *Alloc) SetOnFree(f func(p unsafe.Pointer, size int)) { a.onFree.Store(f) }
+// It returns only after every in-flight invocation of the previous callback
+// has finished.
+func (a *Alloc) SetOnFree(f func(p unsafe.Pointer, size int)) {
+	a.cbmu.Lock()
+	a.onFree.Store(f)
+	a.cbmu.Unlock()
+}
 
 // SetYield installs a callback invoked at the start of every Malloc and Free
 // (a hook-free yield point inside nitro's allocation paths).
@@ -311,9 +318,11 @@ func (a *Alloc) Free(p unsafe.Pointer) {
 		return
 	}
 	b.fstack = pcs
+	a.cbmu.RLock()
 	if f, _ := a.onFree.Load().(func(unsafe.Pointer, int)); f != nil {
 		f(p, b.size)
 	}
+	a.cbmu.RUnlock()
 	atomic.AddInt64(&a.NFrees, 1)
 	atomic.AddInt64(&a.liveCount, -1)
 	if b.pages != 0 {
